@@ -2980,3 +2980,7 @@ def api_surface_matrix(ctx, numqi, st):
             finally:
                 st['closure'] = None
         ctx.case('api-varqec', theta, nontrivial=True)
+
+
+# thorough tier: every random shard is run this many times with independent random streams (see vmon/runner.py get_shards)
+THOROUGH_REPEAT = 2
